@@ -199,6 +199,22 @@ def assertion_grid(part, parts):
                 if i % parts == part:
                     yield {'op': shape, 'q': list(q)}
                 i += 1
+    # the same shapes over small operands that a text-based reading misparses: a literal backslash next to a bracket class that lists
+    # parentheses / '|' / ']' / a raw newline, alone or as one alternative
+    for members in (')', '(', '|', ')]', '(|', ')\n', '()'):
+        cls = ['cls', ['from', [['c', m] for m in members]]]
+        for bs in (['tok', 'Backslash'], ['lit', '\\', True]):
+            for operand in (['cat', 'class', [bs, cls]], ['alt', 'class', [['cat', 'op', [bs, cls]], ['lit', 'x', True]]],
+                            ['alt', 'method', [['lit', 'x', True], ['cat', 'class', [bs, cls]]]], ['cat', 'method', [cls, bs]]):
+                shapes = [['anchor', k, 'class', operand] for k in ('start', 'end', 'lstart', 'lend')]
+                for k in ('fb', 'pb', 'eb'):
+                    shapes.append(['look', k, 'class', operand, [['lit', 'y', True]]])
+                shapes.append(['look', 'fb', 'class', ['empty', 0], [operand]])
+                for shape in shapes:
+                    for q in GRID_QUANTS:
+                        if i % parts == part:
+                            yield {'op': shape, 'q': list(q)}
+                        i += 1
 
 
 def shards(tier):
